@@ -1,4 +1,5 @@
 import Rivaas.Lemmas.OpenAPIEval
+set_option linter.unusedSimpArgs false
 /-
 C07 — helper lemmas: paths. `convertPath` agrees with the oracle's own reading of a route,
 `ValidatePath` gives non-empty, pairwise different `:name` parameters and a leading `/`, and the
